@@ -24,14 +24,20 @@ class RichUprpEditor:
         lookup = RichCuwpLookupBuilder().build_lookup_from_rich_uprp(uprp)
         allocable_ids = self._generate_allocable_ids(lookup)
         new_cuwp_slots = [cuwp for cuwp in uprp.cuwp_slots]
-        for i, cuwp_to_add in enumerate(unique_cuwps):
+        used_ids = lookup.get_ids()
+        # place the CUWPs that already carry an index first, so that an index
+        # they claim is never handed out to a CUWP without one
+        for i, cuwp_to_add in enumerate(
+            sorted(unique_cuwps, key=lambda x: x.index is None)
+        ):
             if cuwp_to_add.index is not None:
-                if not lookup.get_cuwp_by_id(cuwp_to_add.index):
+                if cuwp_to_add.index not in used_ids:
                     new_cuwp_slots.append(
                         self._build_new_cuwp_slot_with_index(
                             cuwp_to_add, cuwp_to_add.index
                         )
                     )
+                    used_ids.add(cuwp_to_add.index)
                     if cuwp_to_add.index in allocable_ids:
                         allocable_ids.remove(cuwp_to_add.index)
                 else:
